@@ -1,5 +1,13 @@
 #!/bin/sh
-# Builds the analysis engines from files on disk only (offline).
+# Builds the analysis engines from files on disk only (offline) and warms the dependency cache.
 set -eu
 cd "$(dirname "$0")"
+export CARGO_NET_OFFLINE=true
+for e in mirfacts synfacts; do
+  if [ -d engines/$e ]; then
+    (cd engines/$e && cargo build --release --offline)
+  fi
+done
+# warm: one fact extraction (compiles /repo's dependencies once into .cache/target)
+./check C18 >/dev/null 2>&1 || true
 exit 0
